@@ -108,6 +108,20 @@ func smallBool(r *rand.Rand, depth int) *sq.Q {
 	return q
 }
 
+// geoHits: some document point lies inside the circle according to the generated table
+func geoHits(c sq.Corpus, q *sq.Q) bool {
+	for _, sg := range c.Segs {
+		for _, d := range sg.Docs {
+			for _, p := range d.G["g1"] {
+				if km, ok := sq.GeoKmTab[[4]int{q.C[0], q.C[1], p[0], p[1]}]; ok && km <= q.Km {
+					return true
+				}
+			}
+		}
+	}
+	return false
+}
+
 func main() {
 	out := flag.String("out", "", "ndjson output")
 	tier := flag.String("tier", "quick", "quick|thorough")
@@ -121,9 +135,9 @@ func main() {
 	defer f.Close()
 	enc = json.NewEncoder(f)
 	r := rand.New(rand.NewSource(*seed))
-	nsmall, nq1, nrich, nq2 := 400, 30, 400, 40
+	nsmall, nq1, nrich, nq2, ngeo := 400, 30, 400, 40, 20
 	if *tier == "thorough" {
-		nsmall, nq1, nrich, nq2 = 4000, 40, 2500, 40
+		nsmall, nq1, nrich, nq2, ngeo = 4000, 40, 2500, 40, 200
 	}
 	if *leaves {
 		for i := 0; i < 200; i++ {
@@ -154,6 +168,21 @@ func main() {
 				width = 12 // beyond the heap take-over of the disjunction searcher
 			}
 			qs = append(qs, sq.RandQuery(r, r.Intn(4), width, true))
+		}
+		run(c, qs, sq.BuildOpts{SegVersion: 1 + i%2})
+	}
+	// geo block: every geo query costs the engine about 0.1 s (cell enumeration), so they get their own, smaller budget
+	for i := 0; i < ngeo; i++ {
+		c := sq.RandCorpus(r, 6+r.Intn(10), 1+r.Intn(4), true)
+		var qs []*sq.Q
+		for j := 0; j < 3; j++ {
+			b, d := sq.RandGeoBox(r), sq.RandGeoDist(r, 3000)
+			for try := 0; try < 8 && !geoHits(c, d) && j > 0; try++ { // two in three steered to a non-empty result
+				d = sq.RandGeoDist(r, 3000)
+			}
+			qs = append(qs, b, d,
+				&sq.Q{T: "bool", Must: []*sq.Q{d}, Nots: []*sq.Q{b}},
+				&sq.Q{T: "bool", Should: []*sq.Q{b, d, sq.RandQuery(r, 0, 1, true)}, Nots: []*sq.Q{sq.RandQuery(r, 0, 1, true)}, Min: r.Intn(3)})
 		}
 		run(c, qs, sq.BuildOpts{SegVersion: 1 + i%2})
 	}
